@@ -275,6 +275,32 @@ def picksOf : List Event → List (List Name)
   | .pick us :: rest => us :: picksOf rest
   | .sync _ _ :: rest => picksOf rest
 
+/-- a request as the policy's traffic sees it (C14): before it is dispatched, the token authenticator (and the
+    subject-access-review authorizer) may ask the cluster for a client — `Manager.ClientFor` → `ClusterInfo.PickOne()`, a `Pop`
+    over `AllEndpoints()` in some map-iteration order; then the dispatcher `Pop`s the policy's upstream list -/
+structure Req where
+  authOrder : Option (List Name)   -- `none`: no PickOne for this request (client certificate, anonymous, …)
+  us : List Name
+
+/-- the endpoints the requests are FORWARDED to.  `own = true`: `PickOne` keeps its own cursors (`lbA`); `own = false`: it
+    draws from the cursors of the dispatch policies (`lb`), as `endpointPickStrategy.Pop` does for every picker with the same key -/
+def runReqs (own : Bool) (eps : List EP) : List (Key × Nat) → List (Key × Nat) → List Req → List PopOut
+  | _, _, [] => []
+  | lb, lbA, r :: rest =>
+    match r.authOrder with
+    | none =>
+      let d := pop eps lb r.us
+      d.1 :: runReqs own eps d.2 lbA rest
+    | some order =>
+      if own then
+        let a := pop eps lbA order
+        let d := pop eps lb r.us
+        d.1 :: runReqs own eps d.2 a.2 rest
+      else
+        let a := pop eps lb order
+        let d := pop eps a.2 r.us
+        d.1 :: runReqs own eps d.2 lbA rest
+
 /-! ## concurrent pickers (C14): one atomic action per step
 
 `Pop` touches shared mutable state once: `atomic.AddUint64` on the cursor of its ordered ready list (`LoadOrStore` of a
